@@ -19,10 +19,11 @@ def main():
     props = [json.loads(l) for l in open(os.path.join(HERE, "properties.jsonl"))]
     na_reasons = json.load(open(NA_FILE)) if os.path.exists(NA_FILE) else {}
     checks, na, engines = [], [], {}
+    ready = set(json.load(open(os.path.join(HERE, "tools", "ready.json"))))
     for p in props:
         pid = p["id"]
         path = os.path.join(HERE, "harness", "props", pid.lower() + ".py")
-        if not os.path.exists(path) or pid in na_reasons:
+        if not os.path.exists(path) or pid in na_reasons or pid not in ready:
             na.append({"property_id": pid,
                        "reason": na_reasons.get(pid, "no check built yet in this round (specification and binding still to come; see DESIGN.md section 3)")})
             continue
